@@ -98,3 +98,63 @@ def register(db):
         loops=[Loop(invariants=[], header="self.attrs.items()")],
         properties=["C15"],
     ))
+
+    # ------------------------------------------------------------------ conversion failures
+    PU = "xsdata.formats.dataclass.parsers.utils:ParserUtils"
+    db.add(Contract(f"{PU}.parse_value", trusted=True, params={}, returns="u:Any",
+                    raises={"ConverterError": True},
+                    note="assumed: value conversion raises only ConverterError (decided per converter under C05/C15)"))
+    db.add(Contract(
+        f"{PU}.parse_var",
+        params={"meta": "opaque:XmlMeta", "var": "opaque:XmlVar", "config": "opaque:ParserConfig", "value": "opaque:Any",
+                "ns_map": "opaque:PyDict", "default": "opaque:Any", "types": "opaque:Types",
+                "tokens_factory": "opaque:Any", "format": "str|None"},
+        ensures=[
+            ("at-most-one-warning", "called('warnings.warn') <= 1"),
+            ("failed-conversion-keeps-input", "implies(called('warnings.warn') == 1, result is value)"),
+            ("warning-only-when-lenient", "implies(called('warnings.warn') == 1, not config.fail_on_converter_warnings)"),
+        ],
+        raises={"ParserError": "config.fail_on_converter_warnings and called('warnings.warn') == 0"},
+        properties=P + ["C15"],
+    ))
+    # ------------------------------------------------------------------ parser end event
+    NP = "xsdata.formats.dataclass.parsers.bases:NodeParser"
+    db.add(Contract(
+        f"{NP}.end",
+        params={"self": f"obj:{NP}", "queue": "opaque:NodeQueue", "objects": "opaque:PyList", "qname": "str",
+                "text": "str|None", "tail": "str|None"},
+        ensures=[("returns-what-bind-returned", "result == uf('XmlNode.bind', 'bool', uf('NodeQueue.pop', 'u:XmlNode', queue), qname, text, tail, objects)")],
+        raises={"ParserError": True, "ConverterError": True, "XmlContextError": True},
+        properties=P,
+    ))
+
+    # ------------------------------------------------------------------ unknown keys in dictionaries
+    DD = "xsdata.formats.dataclass.parsers.dict:DictDecoder"
+
+    def decoder(mk, base):
+        return mk.obj(DD, {"config": "opaque:ParserConfig", "context": "opaque:XmlContext"})
+
+    db.add(Contract(f"{DD}.find_var", trusted=True, params={}, returns="u:XmlVar|None", raises={},
+                    call_ensures=["result == uf('DictDecoder.find_var', 'u:XmlVar|None', xml_vars, key, value)"],
+                    note="assumed: key -> field lookup is a function of (fields, key, value)"))
+    db.add(Contract(f"{DD}.bind_derived_dataclass", trusted=True, params={}, returns="u:Any",
+                    raises={"ParserError": True, "ConverterError": True, "XmlContextError": True}))
+    db.add(Contract(f"{DD}.bind_value", trusted=True, params={}, returns="u:Any",
+                    raises={"ParserError": True, "ConverterError": True, "XmlContextError": True}))
+    db.add(Contract("xsdata.formats.dataclass.parsers.utils:ParserUtils.validate_fixed_value", trusted=True, params={},
+                    raises={"ParserError": True}))
+    db.add(Contract(
+        f"{DD}.bind_dataclass", variant="only-unknown-keys",
+        params={"self": decoder, "data": "dict[str,u:Json]", "clazz": "opaque:type"},
+        requires=["forall(['str', 'u:Json'], lambda k, v: uf('DictDecoder.find_var', 'u:XmlVar|None', "
+                  "uf('XmlMeta.get_all_vars', 'seq[u:XmlVar]', uf('XmlContext.build', 'u:XmlMeta', self.context, clazz)), k, v) is None)",
+                  "set(data.keys()) != self.context.class_type.derived_keys"],
+        ensures=[
+            ("lenient-or-no-keys", "not self.config.fail_on_unknown_properties or len(data) == 0"),
+            ("unknown-keys-contribute-nothing", "len(call_arg('ParserConfig.class_factory', 1)) == 0"),
+        ],
+        raises={"ParserError": "(self.config.fail_on_unknown_properties and len(data) > 0) or called('ParserConfig.class_factory') == 1",
+                "XmlContextError": True},
+        loops=[Loop(invariants=["implies(self.config.fail_on_unknown_properties, _i == 0)"], header="data.items()")],
+        properties=P + ["C15"],
+    ))
